@@ -1056,13 +1056,12 @@ class Evaluator:
                 return BoolV(r if isinstance(op, ast.In) else not r)
             return CondV(r if isinstance(op, ast.In) else sp.Not(r))
         if isinstance(a, self.ext.NdArr) or isinstance(b, self.ext.NdArr):
-            arr, other, flip = (a, b, False) if isinstance(a, self.ext.NdArr) else (b, a, True)
-            if isinstance(other, self.ext.NdArr):
-                if other.shape != arr.shape:
-                    self.unsupported("comparison of explicit arrays of different shapes", node, fr)
-                pairs = list(zip(arr.items, other.items))
-            else:
-                pairs = [(x_, other) for x_ in arr.items]
+            other = b if isinstance(a, self.ext.NdArr) else a
+            if isinstance(other, self.ext.NdArr) or (isinstance(other, Num) and other.shape and self.ext.nd_materialize(other) is not None):
+                shape, pairs = self.ext.nd_pairs(self, a, b, node, fr)
+                return self.ext.NdArr(shape, [self.compare(op, p_, q, node, fr) for p_, q in pairs])
+            arr, flip = (a, False) if isinstance(a, self.ext.NdArr) else (b, True)
+            pairs = [(x_, other) for x_ in arr.items]
             out = [self.compare(op, (q if flip else p_), (p_ if flip else q), node, fr) for p_, q in pairs]
             return self.ext.NdArr(arr.shape, out)
         if isinstance(a, BoolV):
